@@ -355,7 +355,7 @@ pub fn value_for_spelling(class: &str, name: &str, salt: u32) -> rbx_dom_weak::t
         Some(VariantType::Enum) => Variant::Enum(Enum::from_u32(if name == "Font" { [1u32, 3, 10, 17, 45][(s as usize) % 5] } else { 1 + s % 2 })),
         Some(VariantType::Font) => Variant::Font(Font::new(&format!("rbxasset://fonts/families/F{}.json", s), FontWeight::Bold, FontStyle::Italic)),
         Some(VariantType::ContentId) => Variant::ContentId(format!("rbxassetid://{}", 100 + s).into()),
-        Some(VariantType::Content) => Variant::Content(Content::from_uri(format!("rbxassetid://{}", 900 + s))),
+        Some(VariantType::Content) => Variant::Content(crate::gen::content_uri(&format!("rbxassetid://{}", 900 + s))),
         Some(VariantType::String) => Variant::String(format!("text{}", s)),
         Some(VariantType::Float32) => Variant::Float32(s as f32 + 0.25),
         Some(VariantType::Int32) => Variant::Int32(s as i32),
